@@ -117,6 +117,7 @@ def gen_history(rng, cfg, length=None, admin_jobs=True):
     """A list of abstract events; concrete branch/sha choices are resolved at execution."""
     n = length or rng.randint(8, 18)
     evs, nprs = scripted_prefix(rng, cfg)
+    evs = [dict(e) for e in evs]      # every event its own object: C02 and C08 find an event's record by identity
     n = max(4, n - len(evs) // 2)
     for _ in range(n):
         r = rng.random()
